@@ -240,7 +240,12 @@ func (g *G) primitivePayload(meth *m.Method, hasBodyVerb bool) {
 			if pname == "p" && g.avoid("C02-primitive-payload-path-param-named-p") {
 				pname = "id"
 			}
-			h.Path = []m.Mapping{{Attr: pname}}
+			if canPath, _, _, _ := g.mappable(a); canPath {
+				h.Path = []m.Mapping{{Attr: pname}}
+			} else {
+				// every value the validations allow contains a '/' (open finding on path values): carry it in the query
+				h.Query = []m.Mapping{{Attr: "q"}}
+			}
 		case 1:
 			h.Query = []m.Mapping{{Attr: "q"}}
 		default:
@@ -393,6 +398,9 @@ func (g *G) mapObjectPayload(meth *m.Method, hasBodyVerb bool) {
 					break
 				}
 				if f := g.d.FieldByName(meth.Payload, bodyFields[0]); f != nil && f.Attr.Type.Kind == m.Union && g.avoid("C01-union-in-body-fields") {
+					break
+				}
+				if f := g.d.FieldByName(meth.Payload, bodyFields[0]); f != nil && f.Attr.Type.Kind == m.Object && g.p.Runtime && g.avoid("C02-body-fields-client-sends-whole-payload") {
 					break
 				}
 				h.Body = &m.Body{Mode: "attr", Attr: bodyFields[0]}
